@@ -21,7 +21,7 @@
  *     t0  nt  t_1 ... t_nt        (monotonic, either direction)
  * Output: for every requested time a line "T <t>" followed by N lines of 6 (hi lo) pairs of doubles whose
  * sum is the quad value (printed with %a), then a line "U hi lo hi lo" for the oscillator, then
- * "E <relative energy drift (nbody only)> steps <n>".
+ * "E <relative energy drift (nbody only)> steps <n> rhs <n> dmin <smallest distance of an interacting pair so far>".
  *
  * `c01_refnbody selftest` runs closed-form validations and prints  "<name> <error>" lines.
  */
@@ -162,6 +162,17 @@ static int gbs_step(const Q *y, Q H, Q tol, Q *ynew, int *kused) {
 }
 
 static long nsteps = 0;
+static Q dmin2 = -1;      /* smallest squared distance of an interacting pair seen at any accepted step */
+
+static void track_dmin(const Q *y) {
+    for (int i = 0; i < N; i++)
+        for (int j = i + 1; j < N; j++) {
+            if (i >= Nact && j >= Nact) continue;
+            Q dx = y[6 * i] - y[6 * j], dy = y[6 * i + 1] - y[6 * j + 1], dz = y[6 * i + 2] - y[6 * j + 2];
+            Q d2 = dx * dx + dy * dy + dz * dz;
+            if (dmin2 < 0 || d2 < dmin2) dmin2 = d2;
+        }
+}
 
 /* integrate y from t to tend (either direction), h is the running step guess (signed) */
 static void integrate(Q *y, Q *t, Q tend, Q *h, Q tol) {
@@ -176,6 +187,7 @@ static void integrate(Q *y, Q *t, Q tend, Q *h, Q tol) {
         int k;
         if (gbs_step(y, H, tol, ynew, &k)) {
             memcpy(y, ynew, sizeof(Q) * dim());
+            track_dmin(y);
             if (last) *t = tend; else *t += H;
             nsteps++;
             if (!last) { if (k <= 8) *h = H * 1.4Q; else if (k >= 11) *h = H * 0.8Q; }
@@ -391,6 +403,7 @@ int main(int argc, char **argv) {
     Q t = rd();
     int nt = (int)rd();
     Q e0 = energy(y), h = 0;
+    track_dmin(y);
     for (int k = 0; k < nt; k++) {
         Q tend = rd();
         integrate(y, &t, tend, &h, tol);
@@ -401,7 +414,7 @@ int main(int argc, char **argv) {
         }
         printf("U"); put(y[6 * N]); put(y[6 * N + 1]); printf("\n");
         Q de = (!mode_hill && Nact == N && e0 != 0) ? fabsq((energy(y) - e0) / e0) : 0;
-        printf("E %.3e steps %ld rhs %ld\n", (double)de, nsteps, nrhs);
+        printf("E %.3e steps %ld rhs %ld dmin %.6e\n", (double)de, nsteps, nrhs, dmin2 < 0 ? -1.0 : (double)sqrtq(dmin2));
     }
     return 0;
 }
